@@ -40,6 +40,8 @@ async def make_dict(users=(), demo_data=False, subsystem=None, **over):
     if subsystem is not None:
         kw['subsystem'] = subsystem
     kw.update(over)
+    if 'tls_enabled' in kw:             # Config.from_args passes tls_enabled=args.tls itself
+        args.tls = kw.pop('tls_enabled')
     backend, config = await DictBackend.init(args, **kw)
     config.apply_context()
     for name, password, roles in users:
